@@ -201,7 +201,7 @@ def run(seed, tier, lean) -> Result:
         cases += list(exhaustive(2, VARIANTS_FULL, list(TTC_KINDS)))
         red = [('or', None, None), ('and', None, None), ('defense', 1.0, None), ('exist', None, True)]
         cases += list(exhaustive(3, red, ['none', 'dist']))
-        nrand, nmax, nperm = 8000, 30, 3
+        nrand, nmax, nperm = 4000, 30, 3
     nex = len(cases)
     for _ in range(nrand):
         cases.append(random_graph(rnd, nmax))
@@ -260,7 +260,7 @@ def run(seed, tier, lean) -> Result:
             res.samples.append({'nodes': nodes, 'impl': im, 'model': mo})
     # re-runs on the same graph object (oracle only)
     r2 = random.Random(seed ^ 0xC08)
-    for _ in range(600 if tier == 'quick' else 20000):
+    for _ in range(600 if tier == 'quick' else 3600):
         nodes = random_graph(r2, 8)
         rs = r2.getrandbits(32)
         bad, aborted = rerun_problem(nodes, random.Random(rs))
